@@ -120,11 +120,13 @@ def record_one(job):
     ops, ev = [], []
     switched, pl = False, 0
     kr, kt = users
+    ants = [list(ant)] + ([[2, 2] if tuple(ant) != (2, 2) else [0, 0], [0, 0] if nr else [1, 2]] if kind in ("tdl", "su") else [])
+    ai = 1
     for step in range(rng.randint(3, 9)):
         r = rng.rand()
         o = None
         if r < 0.35:
-            o = dict(k="T", s=1, n=int(rng.randint(1, 60)), fft=0, sk="none", sel=[])
+            o = dict(k="T", s=1, n=int(rng.randint(0, 60)), fft=0, sk="none", sel=[])       # 0 = empty input
         elif r < 0.75 and ffts:
             fft = int(ffts[rng.randint(len(ffts))])
             sk = ["none", "slice", "slice", "slice", "array", "list"][rng.randint(6)]
@@ -139,8 +141,10 @@ def record_one(job):
             o = dict(k="Dir", s=0, n=int(not switched), fft=0, sk="none", sel=[])
         elif r < 0.93 and kind in ("su", "mu"):
             o = dict(k="PL", s=0, n=int([x for x in (0, 1, 2) if x != pl][rng.randint(2)]), fft=0, sk="none", sel=[])
-        elif kind == "tdl":
+        elif kind == "tdl" and r < 0.97:
             o = dict(k="Gen", s=0, n=int(rng.randint(1, 30)), fft=0, sk="none", sel=[])
+        elif kind in ("tdl", "su"):
+            o = dict(k="Ant", s=0, n=int([x for x in (1, 2, 3) if x != ai][rng.randint(2)]), fft=0, sk="none", sel=[])
         if o is None:
             continue
         for g in gens:
@@ -173,6 +177,13 @@ def record_one(job):
             elif o["k"] == "Dir":
                 ch.switched_direction = bool(o["n"])
                 switched = bool(o["n"])
+            elif o["k"] == "Ant":
+                nr, nt = ants[o["n"] - 1]
+                if nr:
+                    ch.set_num_antennas(nr, nt)
+                else:
+                    ch.set_num_antennas(None, None)
+                ai = o["n"]
             else:
                 if o["n"] == 0:
                     ch.set_pathloss(None)
@@ -192,7 +203,7 @@ def record_one(job):
         ev.append(e)
         if e["raised"]:
             break
-    cfg = dict(id=job["id"], kind=kind, prof=prof, ant=list(ant), users=list(users), pls=pls if kind != "tdl" else [], ops=ops,
+    cfg = dict(id=job["id"], kind=kind, prof=prof, ant=list(ant), ants=ants, users=list(users), pls=pls if kind != "tdl" else [], ops=ops,
                maxpos=10 ** 6, ntaps=0)
     return {"id": job["id"], "seed": seed, "cfg": cfg, "ev": ev, "gen": "jakes" if jakes else "rayleigh", "ts": ts}
 
